@@ -461,3 +461,17 @@ def gen_immutable_contract(rnd: random.Random):
              TestMeta("check_state(uint256)", 1, [grid], [(tgt,)], f"if(x==LIMIT+slot0={tgt}) panic(1)", leaves={"panic1", "ok"}),
              TestMeta("check_never(uint256)", 1, [grid], [(0,)], "if(x&1==2) panic(1)", leaves={"ok"})]
     return c, metas
+
+
+def gen_annotated_contract(rnd: random.Random):
+    """A function-level annotation concerns its function only:
+       check_a(x)  `@custom:halmos --panic-error-codes 0x11`: if (x & 1 == 2) Panic(0x11)    cannot fail
+       check_b(x)  (no annotation, default codes {0x01}):      if (x == K) Panic(0x01)         fails for x = K"""
+    k = rnd.choice([0, 42, 2**255])
+    a = arg(0) + [("PUSH", 1), "AND", ("PUSH", 2), "EQ", ("PUSHL", "pa"), "JUMPI", "STOP", ("LABEL", "pa")] + panic(0x11)
+    b = arg(0) + [("PUSHN", 32, k), "EQ", ("PUSHL", "pb"), "JUMPI", "STOP", ("LABEL", "pb")] + panic(1)
+    c = Contract("AnnotatedT", [Fn("setUp()", ["STOP"]), Fn("check_a(uint256)", a, devdoc="--panic-error-codes 0x11"), Fn("check_b(uint256)", b)])
+    grid = sorted({0, 1, 2, k, (k + 1) % M256, M256 - 1})
+    metas = [TestMeta("check_a(uint256)", 1, [grid], [(0,)], "if(x&1==2) panic(0x11)  [--panic-error-codes 0x11]", leaves={"ok"}),
+             TestMeta("check_b(uint256)", 1, [grid], [(k,)], f"if(x=={k}) panic(1)", leaves={"panic1", "ok"})]
+    return c, metas
